@@ -23,8 +23,11 @@ def has_quantifier(e, memo=None):
     if k in memo:
         return memo[k]
     r = False
-    if z3.is_quantifier(e):
+    if z3.is_quantifier(e) and not e.is_lambda():
         r = True
+    elif z3.is_quantifier(e):
+        # a lambda (array comprehension) is not a quantifier; look inside its body
+        r = has_quantifier(e.body(), memo)
     else:
         for c in e.children():
             if has_quantifier(c, memo):
@@ -154,6 +157,18 @@ def prove(pc, goal, timeout_ms=None, want_model=True, quick=False):
         return 'proved', 'cvc5', ms + ms2, None
     # a cvc5 'sat' without a replayable model is not trusted as a refutation
     return 'undecided', 'z3+cvc5', ms + ms2, 'z3 unknown(%s); cvc5 %s' % (reason, v)
+
+
+def candidate(pc, goal, timeout_ms=3000):
+    """A model of the quantifier-free conjuncts of `pc` together with the negated goal, or None.
+    NOT a counterexample by itself (quantified facts were dropped); see Engine.prove."""
+    s = z3.Solver()
+    s.set('timeout', timeout_ms)
+    s.add(*[f for f in pc if not has_quantifier(f)])
+    s.add(z3.Not(goal))
+    if s.check() == z3.sat:
+        return s.model()
+    return None
 
 
 def run_cvc5(smt2_text, timeout_s=None):
